@@ -570,6 +570,104 @@ class FnWeaver:
         out.emit('\n', 'repo', self.rel, self.line_at(len(self.text)), fn=self.qual)
 
 
+def outline_loop_body(text, first_line, loop_n, name, params, captures, rel):
+    """D6: returns (new_fn_text, first_line_of_new_text).  The body of loop `loop_n` of the function in `text` becomes
+    the body of `pub fn name(params, captures...)`.  Rewrites (token based, line structure preserved):
+      * `self.FIELD` for captures declared `val NAME: T = self.FIELD`  ->  NAME
+      * identifier NAME of a `mut` capture (a local the loop mutates)  ->  (*NAME)   (the parameter is `NAME: &mut T`)
+      * `continue 'label` of that loop and unlabelled `continue` not nested in an inner loop  ->  `return`
+    """
+    src = Src(text, rel)
+    fw_probe = None
+    parts = None
+    for k in src.code:
+        if src.toks[k][0] == 'id' and src.tok_text(k) == 'fn':
+            parts = split_fn(src, k)
+            break
+    # locate loops in body order
+    loops = []
+    k = src.next_code(parts['body_open'])
+    while k is not None and k < parts['body_close']:
+        if src.toks[k][0] == 'id' and src.tok_text(k) in ('for', 'while', 'loop'):
+            j = src.next_code(k)
+            while j is not None and not src.is_p(j, '{'):
+                if src.is_p(j, '(') or src.is_p(j, '['):
+                    j = src.matches()[j]
+                j = src.next_code(j)
+            loops.append((k, j, src.matches()[j]))
+        k = src.next_code(k)
+    if loop_n < 1 or loop_n > len(loops):
+        raise WeaveError('outline: function has %d loops, asked for %d' % (len(loops), loop_n))
+    kw, ob, cb = loops[loop_n - 1]
+    # label of the loop, if any:  'label: for ...
+    label = None
+    pk = src.prev_code(kw)
+    if pk is not None and src.is_p(pk, ':'):
+        ppk = src.prev_code(pk)
+        if ppk is not None and src.toks[ppk][0] == 'life':
+            label = src.tok_text(ppk)
+    inner = [(a, b, c) for (a, b, c) in loops if b > ob and c < cb]
+    body_a = src.toks[ob][2]
+    body_b = src.toks[cb][1]
+    edits = []
+    val_fields = {}
+    muts = set()
+    sig_params = list(params)
+    for mode, decl in captures:
+        if mode == 'val':
+            m = re.match(r'(\w+)\s*:\s*(.+?)(?:\s*=\s*self\.(\w+))?$', decl)
+            nm, ty, fld = m.group(1), m.group(2), m.group(3)
+            if fld:
+                val_fields[fld] = nm
+            sig_params.append('%s: %s' % (nm, ty))
+        elif mode == 'ref':
+            sig_params.append(decl)
+        elif mode == 'mut':
+            m = re.match(r'(\w+)\s*:\s*(.+)$', decl)
+            muts.add(m.group(1))
+            sig_params.append('%s: &mut %s' % (m.group(1), m.group(2)))
+        else:
+            raise WeaveError('outline: unknown capture mode ' + mode)
+    k = src.next_code(ob)
+    while k is not None and k < cb:
+        t = src.toks[k]
+        tt = src.tok_text(k)
+        if t[0] == 'id' and tt == 'self':
+            a = src.next_code(k)
+            b = src.next_code(a) if a is not None else None
+            if a is not None and src.is_p(a, '.') and b is not None and src.toks[b][0] == 'id' and src.tok_text(b) in val_fields:
+                edits.append((t[1], src.toks[b][2], val_fields[src.tok_text(b)]))
+                k = b
+            else:
+                raise WeaveError('outline: loop body uses `self` other than through a declared `val ... = self.field` capture')
+        elif t[0] == 'id' and tt in muts:
+            pk2 = src.prev_code(k)
+            if not (pk2 is not None and (src.is_p(pk2, '.') or src.is_p(pk2, ':'))):
+                edits.append((t[1], t[2], '(*%s)' % tt))
+        elif t[0] == 'id' and tt == 'continue':
+            nk = src.next_code(k)
+            if nk is not None and src.toks[nk][0] == 'life':
+                if src.tok_text(nk) == label:
+                    edits.append((t[1], src.toks[nk][2], 'return'))
+                else:
+                    raise WeaveError('outline: continue to a foreign label')
+            else:
+                nested = any(b2 < k < c2 for (_, b2, c2) in inner)
+                if not nested:
+                    edits.append((t[1], t[2], 'return'))
+        elif t[0] == 'id' and tt in ('break', 'return'):
+            nested = any(b2 < k < c2 for (_, b2, c2) in inner)
+            if tt == 'return' or not nested:
+                raise WeaveError('outline: loop body contains `%s` of the outlined loop' % tt)
+        k = src.next_code(k)
+    body = text[body_a:body_b]
+    for (a, b, rep) in sorted(edits, reverse=True):
+        body = body[:a - body_a] + rep + body[b - body_a:]
+    line0 = first_line + text.count('\n', 0, body_a)
+    new_text = 'pub fn %s(%s) {' % (name, ', '.join(sig_params)) + body + '}'
+    return new_text, line0
+
+
 # ----------------------------------------------------------------------------------------
 
 DIRECTIVE = re.compile(r'^\s*//@(\w+)\s*(.*)$')
@@ -626,13 +724,31 @@ def weave(unit_path):
             out.emit(stripped + '\n', 'repo', rel, first_line)
             info['items'].append(dict(kind=kind, file=rel, name=name, line=first_line))
             i += 1
-        elif d in ('fn', 'stub'):
+        elif d in ('fn', 'stub', 'outline'):
             parts = arg.split()
             rel, qual = parts[0], parts[1]
             opts = dict(p.split('=', 1) for p in parts[2:])
             tname, fname = qual.rsplit('::', 1)
             text, first_line = locate_fn(rel, tname or None, fname, opts.get('trait'))
             info['hashes']['fn %s %s' % (rel, qual)] = hashlib.sha256(text.encode()).hexdigest()
+            if d == 'outline':
+                # gather //@params and //@capture lines that follow immediately
+                o_params, o_caps = [], []
+                j = i + 1
+                while j < n:
+                    mm0 = DIRECTIVE.match(tlines[j])
+                    if mm0 and mm0.group(1) == 'params':
+                        o_params += [x.strip() for x in mm0.group(2).split(',') if x.strip()]
+                    elif mm0 and mm0.group(1) == 'capture':
+                        mode, decl = mm0.group(2).strip().split(None, 1)
+                        o_caps.append((mode, decl.strip()))
+                    else:
+                        break
+                    j += 1
+                i = j - 1
+                text, first_line = outline_loop_body(text, first_line, int(opts['loop']), opts['name'], o_params, o_caps, rel)
+                qual = qual + '#loop%s(%s)' % (opts['loop'], opts['name'])
+                info['rules'].add('D6')
             fw = FnWeaver(text, rel, first_line, qual, trel)
             fw.publicise()
             if d == 'stub':
